@@ -295,8 +295,14 @@ func wildGen(prop string) func(rng *verifsim.RNG, idx int, tier string) *Plan {
 				seam = "rtnl.addr"
 			}
 			f := Fault{Seam: seam, N: rng.Range(1, 12)}
+			if rng.Bool(0.4) {
+				// a failure that persists over several consecutive calls (an
+				// implementation that tries again meets it again)
+				f = Fault{Seam: seam, Skip: rng.Range(0, 11), Count: rng.Range(2, 5)}
+				p.Class = "faults+persistent"
+			}
 			if rng.Bool(0.7) {
-				f.Err = []string{"nl.EPERM", "nl.EINVAL", "opaque"}[rng.Intn(3)]
+				f.Err = []string{"nl.EPERM", "nl.EINVAL", "opaque", "nl.ENODEV"}[rng.Intn(4)]
 			} else {
 				f.Mode = "empty"
 			}
